@@ -212,7 +212,7 @@ func main() {
 							drv.Fatal("pool instance %q: %v", inst, err)
 						}
 						want, ambiguous = vd.Valid(e.Schema, v)
-						if vd.MixedVariantMembers(e.Schema, v) || vd.DiscriminatorDisagrees(e.Schema, v, want) {
+						if vd.MixedVariantMembers(e.Schema, v) || vd.DiscriminatorDisagrees(e.Schema, v, want) || vd.SeveralVariantsMatch(e.Schema, v) || (want && vd.MemberPointsAtAnotherVariant(e.Schema, v)) {
 							ambiguous = true
 						}
 						if !ambiguous {
@@ -278,7 +278,15 @@ func main() {
 					}
 					if cl != "" {
 						sj, _ := json.Marshal(e.Schema)
-						drv.Violation(map[string]string{"class": cl + "/" + e.Kind + "/" + schemaKind(e.Schema), "verdict": cl, "in": e.Kind, "schema_kind": schemaKind(e.Schema)},
+						attrs := map[string]string{"class": cl + "/" + e.Kind + "/" + schemaKind(e.Schema), "verdict": cl, "in": e.Kind, "schema_kind": schemaKind(e.Schema)}
+						// what the schema combines (matchers of recorded findings name the combination)
+						for _, trait := range vd.Traits(e.Schema) {
+							attrs[trait] = "true"
+						}
+						if strings.Contains(respBody, "unable to detect sum type variant") {
+							attrs["refusal"] = "no-member-to-detect-the-variant-by"
+						}
+						drv.Violation(attrs,
 							len(sj)+len(inst), kase{e.Kind, e.Schema, inst, fmt.Sprint("valid=", want), status, handled, respBody})
 					}
 				}
